@@ -166,7 +166,7 @@ class C15(Check):
         S = parse_ts(case["config"]["time"]["start_timestamp"])
         return {"time": case["config"]["time"], "plan": case["plan"],
                 "events": [{k: v for k, v in ev.items() if k not in ("scope", "scope_instance_id", "planned")} for ev in case["config"]["events"]],
-                "burn_seconds_after_start": [[(parse_ts(ev["start_time"]) - S).total_seconds(), (parse_ts(ev["end_time"]) - S).total_seconds()] for ev in case["config"]["events"]],
+                "burn_seconds_after_start": [[(parse_ts(ev["start_time"]) - S).total_seconds(), (parse_ts(ev.get("end_time", ev["start_time"])) - S).total_seconds()] for ev in case["config"]["events"]],
                 "integrator": case["config"]["propagation"]["integration_method"], "geopotential": case["config"]["geopotential"]}
 
     def run(self, case: dict) -> dict:
